@@ -74,7 +74,7 @@ theorem GoalF.prefix {Γx : Gam} {below : Array Value} {fr : List Frame} {ip : N
     (ho : st1.out = st.out)
     (h : GoalF W Γx below fr ip1 locs1 ops1 g1 l1 st1 r) : GoalF W Γx below fr ip locs ops g l st r := by
   rcases h with h | h
-  · exact .inl (Fails.after n hpre h)
+  · exact .inl (Ovf.after n hpre h)
   refine .inr ?_
   cases r with
   | val v st' => exact Returns.prefix n hpre ho h
